@@ -963,6 +963,14 @@ func schedWorker() {
 		out.Extra["switches"] += int64(res.Switches)
 		out.Extra["switches_inside_library_calls"] += int64(res.InLib)
 		out.Extra["strategy:"+pl.Strategy]++
+		if pl.Order != "" {
+			out.Extra["order:"+pl.Order]++
+		} else {
+			out.Extra["order:reference-first"]++
+		}
+		if pl.ParkInCrit {
+			out.Extra["plans_allowed_to_park_inside_critical_sections"]++
+		}
 		out.Extra["task_op_aborts(panic/hang, C02's business)"] += int64(res.TaskAborts)
 		out.Extra["fingerprint_nodes_last"] = int64(res.FpNodes)
 		for t := range pl.Tasks {
